@@ -68,6 +68,10 @@ func (e *Engine) GroundObligations(prop, tier string) ([]*Obligation, []string) 
 		g.bpfOpcodes()
 	case "C13":
 		g.globalsImmutable(nil)
+	case "C18":
+		// the assumption main makes at the call of getBinaryArch (distinct numbers have distinct names in the table of
+		// the architecture returned), discharged on the literals of the three tables it can return
+		g.tablesInjective([][2]string{{"I386", "syscalls386"}, {"ARM", "syscallsARM"}, {"X86_64", "syscallsX86_64"}})
 	case "C16":
 		// the determinism half of C16's monotonicity argument: the parser tables and expressions are read-only
 		g.globalsImmutable([][2]string{{"disasm", "x86_64Parser"}, {"disasm", "i386Parser"}, {"disasm", "x86_64SyscallRegex"}, {"disasm", "x86_64RawSyscallRegex"},
@@ -260,6 +264,47 @@ func (g *groundCtx) tables() {
 			}
 		}
 		g.add("arch."+pair[0], "arch."+pair[0]+"#ground.info", "Info literal: SyscallNumbers is its table, SyscallNames is invert of the same table, Name as documented", ok, detail, pos)
+	}
+}
+
+// tablesInjective: in the literal number->name table of each Info, no name carries two numbers, and the Info literal
+// uses that table.
+func (g *groundCtx) tablesInjective(pairs [][2]string) {
+	p := g.e.pkgNamed("arch")
+	if p == nil {
+		g.add("arch.tables", "arch.tables#ground.load", "package arch is loaded", false, "package arch not found", token.NoPos)
+		return
+	}
+	for _, pr := range pairs {
+		fn := "arch." + pr[1]
+		ents, pos, err := tableEntries(p, pr[1])
+		if err != nil {
+			g.add(fn, fn+"#ground.injective", "table is a literal of constant entries", false, err.Error(), pos)
+			continue
+		}
+		byName := map[string]int64{}
+		dup := ""
+		for _, en := range ents {
+			if other, seen := byName[en.Name]; seen && other != en.Num {
+				dup = fmt.Sprintf("%s has numbers %d and %d", en.Name, other, en.Num)
+			}
+			byName[en.Name] = en.Num
+		}
+		g.add(fn, fn+"#ground.injective", fmt.Sprintf("no syscall name has two numbers in %s (%d entries): distinct numbers have distinct names", pr[1], len(ents)), dup == "" && len(ents) > 0, dup, pos)
+		init, ipos := findVarInit(p, pr[0])
+		uses := false
+		if ue, isU := init.(*ast.UnaryExpr); isU {
+			if cl, isCL := ue.X.(*ast.CompositeLit); isCL {
+				for _, el := range cl.Elts {
+					if kv, isKV := el.(*ast.KeyValueExpr); isKV {
+						if id, isId := kv.Key.(*ast.Ident); isId && id.Name == "SyscallNumbers" && exprString(kv.Value) == pr[1] {
+							uses = true
+						}
+					}
+				}
+			}
+		}
+		g.add("arch."+pr[0], "arch."+pr[0]+"#ground.uses_table", fmt.Sprintf("arch.%s.SyscallNumbers is %s", pr[0], pr[1]), uses, "Info literal does not use the table", ipos)
 	}
 }
 
